@@ -94,6 +94,62 @@ func hasLoop(f *ssa.Function) bool {
 }
 
 func runC16(r *Report) {
+	// the close handler of the stream processor releases both endpoints whatever the other one says:
+	// no return of onClose is reachable without examining reader and writer (an early return on a
+	// failing writer Close would leave the reader open for ever: the close latch is already set)
+	if oc := r.need("R-C16-2", "internal/stream", "StreamProcessor.onClose"); oc != nil {
+		for _, fld := range []string{"reader", "writer"} {
+			f2 := fld
+			isGuard := func(in ssa.Instruction) bool {
+				bo, isB := in.(*ssa.BinOp)
+				if !isB || (bo.Op != token.NEQ && bo.Op != token.EQL) {
+					return false
+				}
+				u, isU := stripValue(bo.X).(*ssa.UnOp)
+				if !isU || u.Op != token.MUL {
+					return false
+				}
+				_, f, _, isF := FieldOf(u.X)
+				return isF && f == f2
+			}
+			bad := token.NoPos
+			for _, ret := range Returns(oc) {
+				if ReachesWithout(oc, ret, isGuard) {
+					bad = ret.Pos()
+				}
+			}
+			pos := oc.Pos()
+			if bad != token.NoPos {
+				pos = bad
+			}
+			r.Ob("R-C16-2", pos, bad == token.NoPos, "every path through the stream processor's close handler examines (and closes) its "+fld, "StreamProcessor.onClose", "close-handler-covers:"+fld)
+		}
+	}
+	// a Start that can still refuse does not leave goroutines behind: no `go` statement of
+	// Tunnel.Start lies on a path to an error return (the state latch is won first)
+	if ts := r.need("R-C16-4", "internal/client/tunnel", "Tunnel.Start"); ts != nil {
+		nGo := 0
+		Instrs(ts, func(in ssa.Instruction) {
+			g, ok := in.(*ssa.Go)
+			if !ok {
+				return
+			}
+			nGo++
+			hits := WalkFrom(nil, in, func(x ssa.Instruction) int {
+				if ret, isR := x.(*ssa.Return); isR {
+					if RetErrKind(ret) != "nil" {
+						return Hit
+					}
+					return Stop
+				}
+				return Cont
+			}, nil)
+			r.Ob("R-C16-4", g.Pos(), len(hits) == 0, "goroutine started by Tunnel.Start is not followed by a refusing return (it would run under a context nothing cancels)", "Tunnel.Start", "no-goroutine-before-refusal")
+		})
+		if nGo < 2 {
+			r.Fail("R-C16-4", ts.Pos(), fmt.Sprintf("only %d goroutines started by Tunnel.Start found (3 confirmed by hand)", nGo), "Tunnel.Start", "floor-goroutines")
+		}
+	}
 	const dispPkg = "internal/core/dispose"
 	// ---- R-C16-1 the dispose latch -------------------------------------------------
 	dc := r.need("R-C16-1", dispPkg, "Dispose.Close")
